@@ -216,6 +216,9 @@ def generate(run_seed, tier):
             cur = S.mutate_fit(r, cur, fit)
             nd = len(cur)
             ops[pos] = ['refit', cur]
+            if cfg['obs'] is not None and r.random() < 0.4:
+                # ... and is handed another observation (other bin layout)
+                ops[pos].append(S.gen_obs(r, mcfg))
             for j in range(pos + 1, len(ops)):
                 if ops[j][0] == 'refit':
                     break
@@ -552,11 +555,12 @@ def execute(case, keep_text=False):
             else:
                 raise ValueError(op)
 
-    segments = [[[], None, 0]]
+    segments = [[[], None, 0, None]]
     for i, op in enumerate(ops):
         if op[0] == 'refit':
             segments[-1][1] = op[1]
-            segments.append([[], None, i + 1])
+            segments[-1][3] = op[2] if len(op) > 2 else None
+            segments.append([[], None, i + 1, None])
         else:
             segments[-1][0].append(op)
     plan = Plan()
@@ -564,7 +568,7 @@ def execute(case, keep_text=False):
     samplers.set_plan(plan)
     samplers.use_nestle_double(True)
     try:
-        for seg_ops, newfit, offset in segments:
+        for seg_ops, newfit, offset, newobs in segments:
             plan.ops = seg_ops
             plan.offset = offset
             plan.ran = False
@@ -584,6 +588,12 @@ def execute(case, keep_text=False):
                 break
             # re-configure the same optimizer through its public mutators
             try:
+                if newobs is not None and not is_toy:
+                    cfg['obs'] = newobs
+                    cfg.pop('obs_override', None)
+                    obs = S.build_obs(newobs)
+                    opt.set_observed(obs)
+                    out.bump('probes', 'observation_replaced')
                 S.apply_refit(opt, fit, newfit)
             except Exception as e:
                 viol('refit-raised', type(e).__name__,
